@@ -200,7 +200,9 @@ def tie_decorations(ctx, M, files, label, count):
         a, b = c[2 * i], c[2 * i + 1]
         ma, mb = m[2 * i], m[2 * i + 1]
         # the allocation of the token buffer may differ (a comment does not go through it; longer keywords do not occur)
-        strip = (lambda s: re.sub(r" ALLOC:\d+$", "", s))
+        # and a blank line adds one T_EOL when every call has F_EOL (the parser never asks for that after a T_EOL:
+        # parse_nl_after_nl): runs of EOL are compared as one
+        strip = (lambda s: re.sub(r"( EOL)+", " EOL", re.sub(r" ALLOC:\d+$", "", s)))
         ctx.traces_validated += 1
         if strip(a) != strip(b) or strip(ma) != strip(mb):
             bad += 1
